@@ -1004,9 +1004,15 @@ func TestC14(t *testing.T) {
 			c.Inconclusive("node: %v", err)
 			return
 		}
-		defer nd.Destroy()
+		defer func() { nd.Destroy() }()
 		w.nd = nd
 		total := uint64(sc.Epochs)*e + 2
+		restarts := map[uint64]bool{}
+		if c.Index%2 == 1 {
+			for i, n := 0, 1+rng.Intn(2); i < n; i++ {
+				restarts[uint64(rng.Range(int(e)+1, int(total)-1))] = true
+			}
+		}
 		cur := w.tr.Root
 		forked := !sc.Fork
 		for cur.Height < total {
@@ -1060,6 +1066,31 @@ func TestC14(t *testing.T) {
 					cur, other = best, mainTable
 				}
 			}
+			if restarts[cur.Height] {
+				// clean stop and start; afterwards every key votes for the last completed checkpoint of the chain
+				// (the node saves the checkpoints whose status a vote changes).  The next blocks, reward block
+				// included, are judged as before: the table is the one of the uninterrupted reference
+				nd2, rerr := net.Reopen(w.nd, g)
+				if rerr != nil {
+					c.Violation("restart-failed", "the node does not start from its own store after a clean stop", map[string]interface{}{"scenario": sc.String(), "height": cur.Height, "error": rerr.Error()})
+					return
+				}
+				nd, w.nd = nd2, nd2
+				c.Count("restarts", 1)
+				if cp := cur.CP(e); cp.Height > 0 && rng.Chance(2, 3) {
+					for k := 0; k < sc.NKeys; k++ {
+						if k == sc.Local {
+							continue
+						}
+						if err := nd.Chain.ProcessBlockVerification(net.VoteMsg(k, w.tr.Root.Hash, cp.Hash)); err == nil {
+							c.Count("votes_after_restart_accepted", 1)
+						}
+					}
+				}
+				if b := w.tr.ByHash[nd.Best()]; b != nil && b.Hash != cur.Hash {
+					cur = b
+				}
+			}
 			nb, ok := w.step(cur, false, other)
 			if !ok {
 				return
@@ -1074,7 +1105,7 @@ func TestC14(t *testing.T) {
 			cls = append(cls, k)
 		}
 		sort.Strings(cls)
-		c.Distinct("fed%d|voted%v|maxvals%d|epoch%d|epochs%d|%s|fork%v", sc.Fed, sc.Voted, w.maxVals, sc.Epoch, sc.Epochs, strings.Join(cls, "+"), sc.Fork)
+		c.Distinct("fed%d|voted%v|maxvals%d|epoch%d|epochs%d|%s|fork%v|restarts%d", sc.Fed, sc.Voted, w.maxVals, sc.Epoch, sc.Epochs, strings.Join(cls, "+"), sc.Fork, len(restarts))
 		c.Count("chains_completed", 1)
 		c.Count("chains_pledge_plan_"+sc.Pledge, 1)
 		if c.WantSample() {
@@ -1095,6 +1126,8 @@ func TestC14(t *testing.T) {
 	}
 	r.Floor("mutant_rejected:other-branch-table", 3)
 	r.Floor("reorganisations_to_side_branch", 3)
+	r.Floor("restarts", 10)
+	r.Floor("votes_after_restart_accepted", 10)
 	r.Floor("template_first-epoch-block_exact", 10)
 	r.Floor("template_off-epoch-block_exact", 20)
 	r.Floor("template_paying_nonempty_table", 8)
